@@ -316,6 +316,11 @@ class C20(Scenario):
                 pool = [e[0] for e in exprs] * 3 + KIT_ALL
                 e = rng.choice(pool)
                 mode = rng.choice(["call", "map", "map"])
+                if arm == "faulted-init" and rng.random() < 0.3:
+                    # a dispatch that is cut short (possibly inside the table refresh that a
+                    # late type triggers); the same application must work right afterwards
+                    fop = ["fault", "interrupt", {"n": int(10 ** rng.uniform(0, 2.6)), "files": FAULT_FILES + ["corealg/map_dag.py", "corealg/dag_traverser.py"]}, ["apply", None, a[0], e, mode]]
+                    units.append({"n": 0, "k": "apply-fault", "op": fop})
                 units.append({"n": 0, "k": "apply", "op": ["apply", None, a[0], e, mode]})
             elif k == "applyreal":
                 pool = [e[0] for e in exprs] * 4 + KIT_ALL
@@ -354,7 +359,7 @@ class C20(Scenario):
                 steps.append([1, u["op"]])
                 uos.append(ui)
         for ui, u in enumerate(units):
-            if u["k"] == "regtype" or u["k"] == "mkalg-fault":
+            if u["k"] in ("regtype", "mkalg-fault", "apply-fault"):
                 continue
             steps.append([1, u["op"]])
             uos.append(ui)
@@ -379,6 +384,7 @@ class C20(Scenario):
             "interrupt_landed_in_first_instantiation": 0,
             "apply_total": 0,
             "real_instance_applied": 0,
+            "interrupt_landed_in_dispatch": 0,
             "late_type_met_by_preexisting_real_instance": 0,
         }
         # when was each type registered / each class first instantiated / each instance made
@@ -430,6 +436,12 @@ class C20(Scenario):
                                 "fingerprint": r.get("raised"),
                             }
                         )
+            elif u["k"] == "apply-fault":
+                r = main.get(ui, {})
+                faults["interrupt"]["configured"] += 1
+                if "ok" in r and isinstance(r["ok"], dict) and r["ok"].get("fired"):
+                    faults["interrupt"]["fired"] += 1
+                    probes["interrupt_landed_in_dispatch"] = probes.get("interrupt_landed_in_dispatch", 0) + 1
             elif u["k"] == "newexpr":
                 ts = {op[2][1]}
                 if op[3] is not None:
